@@ -80,14 +80,16 @@ Definition write_value (k : bytes) (v : value) : bytes :=
   | VHash h => T_HASH :: write_string k ++ write_length (len h) ++ flat_map write_pair h
   end.
 
+(** [expiry_ms]: [u64::try_from(ttl.as_millis()).unwrap_or(u64::MAX)] saturating-added to the
+    wall clock (745a34c) *)
+Definition expiry_of (now wall t : Z) : Z := Z.min u64_max (wall + Z.min u64_max (t - now)).
 (** one key of write_snapshot's loop (rdb.rs:435-449): [storage.get] (lazy expiry:
-    an expired key is skipped), [storage.ttl], then write_key_value with
-    [expiry_ms = wall + ttl] (release arithmetic: wraps at 2^64, see [save_panics]) *)
+    an expired key is skipped), [storage.ttl], then write_key_value *)
 Definition write_key (now wall : Z) (ke : bytes * entry) : bytes :=
   let (k, e) := ke in
   if expired now e then []
   else match e_exp e with
-       | Some t => OP_EXPIRE_MS :: u64_le ((wall + (t - now) mod two64) mod two64) ++ write_value k (e_val e)
+       | Some t => OP_EXPIRE_MS :: u64_le (expiry_of now wall t) ++ write_value k (e_val e)
        | None => write_value k (e_val e)
        end.
 
@@ -114,13 +116,12 @@ Definition save_body (ver : bytes) (ctime now wall : Z) (ds : list db) : bytes :
 Definition save (ver : bytes) (ctime now wall : Z) (ds : list db) : bytes :=
   let b := save_body ver ctime now wall ds in b ++ u64_le (byte_sum b mod two64).
 
-(** Debug profile (overflow checks on): the writer panics on [skiplist.len() - 1] of an
-    empty sorted set and on [now_ms as u64 + ttl_ms as u64] >= 2^64. *)
+(** Debug profile (overflow checks on): the writer still panics on [skiplist.len() - 1] of an
+    empty sorted set (not storable through the commands: ZREM removes an emptied key) *)
 Definition key_panics (now wall : Z) (ke : bytes * entry) : bool :=
   let e := snd ke in
   if expired now e then false
-  else (match e_exp e with Some t => two64 <=? wall + (t - now) mod two64 | None => false end)
-       || (match e_val e with VZSet [] => true | _ => false end).
+  else match e_val e with VZSet [] => true | _ => false end.
 Definition save_panics (now wall : Z) (ds : list db) : bool :=
   existsb (fun d => existsb (key_panics now wall) (d_data d)) ds.
 
@@ -174,9 +175,16 @@ Definition read_length : rd -> rres Z :=
   else if t =? 2 then read_u32_be
   else fail.
 
-(** read_string: the buffer of the declared length is allocated before anything is read *)
+(** read_string (43b3590): [Vec::with_capacity(min(len, 64 KiB))], then
+    [take(len).read_to_end]: the buffer grows (by doubling, plus read_to_end's 32-byte probe)
+    only with the bytes actually read, [got] = min(len, bytes present); a short read is an error.
+    Ghost: every request is at most [min(len, 65536)] or [2 * got + 32]. *)
 Definition read_string : rd -> rres bytes :=
-  n <- read_length ;; _ <- reserve n ;; read_exact n.
+  n <- read_length ;; _ <- reserve (Z.min n 65536) ;;
+  fun s => match take (r_in s) n with
+           | Some (a, b) => (Some a, {| r_in := b; r_resv := Z.max (r_resv s) (2 * n + 32) |})
+           | None => (None, {| r_in := []; r_resv := Z.max (r_resv s) (2 * len (r_in s) + 32) |})
+           end.
 
 (** [for _ in 0..n { read_string()? }]: every iteration consumes at least one byte, so
     [fuel >= length input] iterations suffice; the counter stays in Z (a corrupt count
@@ -402,8 +410,9 @@ Record lst := { l_rd : rd; l_dbs : list db }.
 Inductive step A := SOk (a : A) (s : rd) (ds : list db) | SErr (s : rd) (ds : list db) | SPanic (s : rd) (ds : list db).
 Arguments SOk {A}. Arguments SErr {A}. Arguments SPanic {A}.
 
-(** stream reconstruction loop (rdb.rs:881-919).  [chk] = overflow checks on (debug). *)
-Fixpoint load_stream (chk : bool) (fuel : nat) (ds : list db) (i : Z) (k : bytes)
+(** stream reconstruction loop (rdb.rs:881-919); the field count's arithmetic is checked (bcfe7be):
+    an overflow is "not enough data" *)
+Fixpoint load_stream (fuel : nat) (ds : list db) (i : Z) (k : bytes)
          (idx remaining : Z) (s : rd) : step unit :=
   match fuel with
   | O => SErr s ds
@@ -418,8 +427,7 @@ Fixpoint load_stream (chk : bool) (fuel : nat) (ds : list db) (i : Z) (k : bytes
       | (Some fc_str, s2) =>
         let idx2 := idx + 2 in
         let fc := match parse_usize fc_str with Some n => n | None => 0 end in
-        if chk && ((two64 <=? fc * 2) || (two64 <=? idx2 + fc * 2)) then SPanic s2 ds else
-        if remaining <? (idx2 + (fc * 2) mod two64) mod two64 then SOk tt s2 ds else   (* break *)
+        if (two64 <=? idx2 + fc * 2) || (remaining <? idx2 + fc * 2) then SOk tt s2 ds else   (* break *)
         match read_pairs (S (length (r_in s2))) fc [] s2 with
         | (None, s3) => SErr s3 ds
         | (Some fv, s3) =>
@@ -427,7 +435,7 @@ Fixpoint load_stream (chk : bool) (fuel : nat) (ds : list db) (i : Z) (k : bytes
                        | Some id => api_xadd ds i k id (h_ins_all [] fv)
                        | None => ds
                        end in
-            load_stream chk f ds' i k (idx2 + 2 * fc) remaining s3
+            load_stream f ds' i k (idx2 + 2 * fc) remaining s3
         end
       end
     end
@@ -471,7 +479,7 @@ Fixpoint read_strings_partial (fuel : nat) (n : Z) (acc : list bytes) (s : rd)
   end.
 
 (** read_key_value_with_type (rdb.rs:843-982) *)
-Definition load_kv (chk : bool) (now : Z) (ds : list db) (i : Z) (vt : Z) (ttl : option Z) (s : rd) : step unit :=
+Definition load_kv (now : Z) (ds : list db) (i : Z) (vt : Z) (ttl : option Z) (s : rd) : step unit :=
   let fuel := S (length (r_in s)) in
   if vt =? T_STRING then
     match read_string s with
@@ -507,7 +515,7 @@ Definition load_kv (chk : bool) (now : Z) (ds : list db) (i : Z) (vt : Z) (ttl :
           | (None, s3) => SErr s3 ds
           | (Some first, s3) =>
             if beq first marker then
-              match load_stream chk fuel ds i k 0 (n - 1) s3 with
+              match load_stream fuel ds i k 0 (n - 1) s3 with
               | SOk _ s4 ds1 => lift_api tt s4 ds1 (api_expire_opt now ds1 i k ttl)
               | r => r
               end
@@ -564,18 +572,18 @@ Definition load_kv (chk : bool) (now : Z) (ds : list db) (i : Z) (vt : Z) (ttl :
     end
   else SErr s ds.
 
-(** read_key_value_with_expiry: "already expired" => ttl = None (the key is inserted
-    without a deadline) *)
-Definition load_kv_expiry (chk : bool) (now wall : Z) (ds : list db) (i : Z) (expiry : Z) (s : rd) : step unit :=
+(** read_key_value_with_expiry: "already expired" => ttl = Some(ZERO) (e11d87f): the key is
+    inserted with the deadline "now": expired for every reader *)
+Definition load_kv_expiry (now wall : Z) (ds : list db) (i : Z) (expiry : Z) (s : rd) : step unit :=
   match read_byte s with
   | (None, s1) => SErr s1 ds
   | (Some vt, s1) =>
-      let ttl := if wall <? expiry then Some (expiry - wall) else None in
-      load_kv chk now ds i vt ttl s1
+      let ttl := if wall <? expiry then Some (expiry - wall) else Some 0 in
+      load_kv now ds i vt ttl s1
   end.
 
 (** the opcode loop of load_into; [cur] = current_db *)
-Fixpoint load_loop (chk : bool) (now wall : Z) (fuel : nat) (cur : Z) (ds : list db) (s : rd)
+Fixpoint load_loop (now wall : Z) (fuel : nat) (cur : Z) (ds : list db) (s : rd)
   : lstatus * list db * rd :=
   match fuel with
   | O => (LErr, ds, s)
@@ -590,33 +598,33 @@ Fixpoint load_loop (chk : bool) (now wall : Z) (fuel : nat) (cur : Z) (ds : list
         end
       else if op =? OP_SELECTDB then
         match read_length s1 with
-        | (Some n, s2) => load_loop chk now wall f n ds s2
+        | (Some n, s2) => load_loop now wall f n ds s2
         | (None, s2) => (LErr, ds, s2)
         end
       else if op =? OP_RESIZEDB then
         match (_ <- read_length ;; read_length) s1 with
-        | (Some _, s2) => load_loop chk now wall f cur ds s2
+        | (Some _, s2) => load_loop now wall f cur ds s2
         | (None, s2) => (LErr, ds, s2)
         end
       else if op =? OP_AUX then
         match (_ <- read_string ;; read_string) s1 with
-        | (Some _, s2) => load_loop chk now wall f cur ds s2
+        | (Some _, s2) => load_loop now wall f cur ds s2
         | (None, s2) => (LErr, ds, s2)
         end
       else
         let r := if op =? OP_EXPIRE_MS then
                    match read_u64_le s1 with
-                   | (Some e, s2) => load_kv_expiry chk now wall ds cur e s2
+                   | (Some e, s2) => load_kv_expiry now wall ds cur e s2
                    | (None, s2) => SErr s2 ds
                    end
                  else if op =? OP_EXPIRE_S then
                    match read_u32_le s1 with
-                   | (Some e, s2) => load_kv_expiry chk now wall ds cur (e * 1000) s2
+                   | (Some e, s2) => load_kv_expiry now wall ds cur (e * 1000) s2
                    | (None, s2) => SErr s2 ds
                    end
-                 else load_kv chk now ds cur op None s1 in
+                 else load_kv now ds cur op None s1 in
         match r with
-        | SOk _ s2 ds' => load_loop chk now wall f cur ds' s2
+        | SOk _ s2 ds' => load_loop now wall f cur ds' s2
         | SErr s2 ds' => (LErr, ds', s2)
         | SPanic s2 ds' => (LPanic, ds', s2)
         end
@@ -634,14 +642,14 @@ Definition read_header : rd -> rres unit :=
 Definition empty_dbs : list db := repeat empty_db 16.
 
 (** RdbEngine::load into the databases [ds0] (a fresh engine: [empty_dbs]) *)
-Definition load_from (chk : bool) (now wall : Z) (ds0 : list db) (b : bytes) : lstatus * list db * rd :=
+Definition load_from (now wall : Z) (ds0 : list db) (b : bytes) : lstatus * list db * rd :=
   let s0 := {| r_in := b; r_resv := 0 |} in
   match read_header s0 with
   | (None, s1) => (LErr, ds0, s1)
-  | (Some _, s1) => load_loop chk now wall (S (length b)) 0 ds0 s1
+  | (Some _, s1) => load_loop now wall (S (length b)) 0 ds0 s1
   end.
-Definition load (chk : bool) (now wall : Z) (b : bytes) : lstatus * list db * rd :=
-  load_from chk now wall empty_dbs b.
+Definition load (now wall : Z) (b : bytes) : lstatus * list db * rd :=
+  load_from now wall empty_dbs b.
 
 Definition load_status (r : lstatus * list db * rd) : lstatus := fst (fst r).
 Definition load_dbs (r : lstatus * list db * rd) : list db := snd (fst r).
@@ -725,14 +733,14 @@ Definition value_ok (v : value) : bool :=
   | VStream s => lt32 (stream_items (s_entries s)) && negb (len (s_entries s) =? 0)
                  && sids_ok (0, 0) (s_entries s) && forallb sentry_ok (s_entries s)
   end.
-(** [wl]: wall clock at the load.  A key already expired at the save is simply not written;
-    a live key must be well formed, its expiry must fit u64, and its deadline must not pass
-    during the downtime (the class expired-reloaded-immortal otherwise) *)
+(** A key already expired at the save is simply not written; a live key must be well formed
+    and its expiry must fit u64 (it saturates otherwise).  [wl] (wall clock at the load) is no
+    longer constrained: a deadline that passes during the downtime is handled by [shift]. *)
 Definition entry_ok (now ws wl : Z) (ke : bytes * entry) : bool :=
   expired now (snd ke)
   || (str_ok (fst ke) && value_ok (e_val (snd ke))
       && match e_exp (snd ke) with
-         | Some t => (ws + (t - now) <? two64) && (wl <? ws + (t - now))
+         | Some t => ws + (t - now) <? two64
          | None => true
          end).
 Definition db_ok (now ws wl : Z) (d : db) : bool :=
@@ -749,8 +757,9 @@ Definition norm_value (v : value) : value :=
   | VStream s => VStream (mkstream (s_entries s) (last_sid (0, 0) (s_entries s)) (len (s_entries s)))
   | _ => v
   end.
-(** the deadline on the clock of the restarted engine: [now'] at the load *)
-Definition shift (now now' ws wl t : Z) : Z := now' + (ws + (t - now) - wl).
+(** the deadline on the clock of the restarted engine ([now'] at the load); a deadline that
+    passed during the downtime becomes [now']: already expired *)
+Definition shift (now now' ws wl t : Z) : Z := now' + Z.max 0 (ws + (t - now) - wl).
 Definition aged_entry (now now' ws wl : Z) (e : entry) : entry :=
   {| e_val := norm_value (e_val e);
      e_exp := match e_exp e with Some t => Some (shift now now' ws wl t) | None => None end |}.
